@@ -110,3 +110,85 @@ def entry_matches(entry_sig, sig):
         elif sv != v:
             return False
     return True
+
+
+# ------------------------------------------------------------------------------------------------
+# the real CLI: /repo/cli/src copied next to a driver (tools/clidrv); without VERIF_DRIVER it *is* `typeshare`
+def build_clidrv():
+    """(re)build the CLI driver from /repo's current cli sources; returns the binary path"""
+    import shutil
+    src = os.path.join(CACHE, "clidrv-src")
+    os.makedirs(os.path.join(src, "src"), exist_ok=True)
+    tool = os.path.join(VERIF, "tools", "clidrv")
+    changed = False
+
+    def put(path, text):
+        nonlocal changed
+        old = open(path).read() if os.path.exists(path) else None
+        if old != text:
+            with open(path, "w") as fh:
+                fh.write(text)
+            changed = True
+
+    put(os.path.join(src, "Cargo.toml"), open(os.path.join(tool, "Cargo.toml")).read())
+    put(os.path.join(src, "Cargo.lock"), open(os.path.join(REPO, "Cargo.lock")).read())
+    cli = os.path.join(REPO, "cli", "src")
+    for fn in sorted(os.listdir(cli)):
+        if not fn.endswith(".rs"):
+            continue
+        text = open(os.path.join(cli, fn)).read()
+        if fn == "main.rs":
+            if "\nfn main() -> anyhow::Result<()> {" not in text:
+                raise Inconclusive("cli/src/main.rs: `fn main() -> anyhow::Result<()>` not found; the CLI driver cannot be composed")
+            text = text.replace("\nfn main() -> anyhow::Result<()> {", "\nfn real_main() -> anyhow::Result<()> {", 1)
+            text += open(os.path.join(tool, "driver.rs")).read()
+        put(os.path.join(src, "src", fn), text)
+    tdir = os.path.join(CACHE, "clidrv")
+    exe = os.path.join(tdir, "debug", "clidrv")
+    rc, out, _ = run(["cargo", "build", "--offline", "--target-dir", tdir], cwd=src, timeout=1800)
+    if rc != 0:
+        raise Inconclusive("CLI driver build failed (does /repo compile?):\n" + out[-3000:])
+    return exe
+
+
+class CliDriver:
+    """persistent driver process (JSON lines); a crash is detected by process death"""
+
+    def __init__(self):
+        self.exe = build_clidrv()
+        self.p = None
+
+    def start(self):
+        env = dict(os.environ, VERIF_DRIVER="1", RUST_LOG="off")
+        self.p = subprocess.Popen([self.exe], stdin=subprocess.PIPE, stdout=subprocess.PIPE, stderr=subprocess.DEVNULL, text=True, env=env)
+
+    def ask(self, req):
+        if self.p is None or self.p.poll() is not None:
+            self.start()
+        try:
+            self.p.stdin.write(json.dumps(req) + "\n")
+            self.p.stdin.flush()
+            line = self.p.stdout.readline()
+        except BrokenPipeError:
+            line = ""
+        if not line:
+            rc = self.p.wait()
+            self.p = None
+            return {"crash": rc}
+        return json.loads(line)
+
+    def cli(self, argv, cwd):
+        """run the real `typeshare` main with argv in cwd"""
+        env = dict(os.environ)
+        env.pop("VERIF_DRIVER", None)
+        pr = subprocess.run([self.exe] + list(argv), cwd=cwd, capture_output=True, text=True, timeout=120, env=env)
+        return pr.returncode, pr.stdout, pr.stderr
+
+    def close(self):
+        if self.p is not None:
+            try:
+                self.p.stdin.close()
+                self.p.wait(timeout=5)
+            except Exception:
+                self.p.kill()
+            self.p = None
